@@ -2,6 +2,9 @@
 # run_seeded.sh [id...]: apply each seeded change of /verif/seeded to /repo, run the quick checks listed in its
 # meta.json (detected_by_quick_checks), undo the change. Prints one line per (seed, check).
 cd /verif || exit 2
+# trial runs write their evidence/replays to a scratch root, never to /verif/evidence
+export ZVERIF_ROOT=$(mktemp -d /tmp/try-root.XXXXXX); cp /verif/known_findings.json "$ZVERIF_ROOT/"
+trap 'rm -rf "$ZVERIF_ROOT"' EXIT
 ids="$@"; [ -z "$ids" ] && ids=$(ls seeded)
 for id in $ids; do
   checks=$(python3 -c "import json;print(' '.join(json.load(open('/verif/seeded/$id/meta.json'))['detected_by_quick_checks']))")
